@@ -391,9 +391,11 @@ func c08EdDSAJob(r *mon.R, idx int) {
 		case stdAcc:
 			c08NoteAdd("eddsa-corpus/std-accepts-kyber-rejects/"+c.class, 1)
 		}
-		c08Sample(r, "eddsa/"+c.class, func() any { return map[string]any{"scheme": "eddsa", "class": c.class, "variant": c.pos,
-			"demand": []string{"accept", "reject", "recorded-only"}[c.demand], "classification": c.why, "kyber_accepts": o.accepted, "std_accepts": stdAcc, "error": c08Short(o.err),
-			"pub": mon.Hex(c.pub), "msg_len": len(c.msg), "sig": mon.Hex(c.sig)} })
+		c08Sample(r, "eddsa/"+c.class, func() any {
+			return map[string]any{"scheme": "eddsa", "class": c.class, "variant": c.pos,
+				"demand": []string{"accept", "reject", "recorded-only"}[c.demand], "classification": c.why, "kyber_accepts": o.accepted, "std_accepts": stdAcc, "error": c08Short(o.err),
+				"pub": mon.Hex(c.pub), "msg_len": len(c.msg), "sig": mon.Hex(c.sig)}
+		})
 		// point-typed entry point for keys that are canonical encodings
 		if len(c.pub) == 32 && (idx%4 == 0 || c.class[0] == 'm' || c.class[0] == 'k') {
 			A := g.grp.Point()
@@ -540,7 +542,9 @@ func c08PredJob(r *mon.R, idx int) {
 		c08Check(r, where, "point.HasSmallOrder", cls, e.name+"|"+mon.Hex(e.b), !o.panicked && gotS == wantS, func() map[string]any {
 			return map[string]any{"encoding": mon.Hex(e.b), "name": e.name, "kyber": gotS, "model": wantS, "panic": o.pmsg}
 		})
-		c08Sample(r, "pred/"+cls, func() any { return map[string]any{"predicate": "HasSmallOrder", "class": cls, "encoding": mon.Hex(e.b), "kyber": gotS, "model": wantS} })
+		c08Sample(r, "pred/"+cls, func() any {
+			return map[string]any{"predicate": "HasSmallOrder", "class": cls, "encoding": mon.Hex(e.b), "kyber": gotS, "model": wantS}
+		})
 	}
 	// scalars
 	var scs []c08Enc
